@@ -84,6 +84,8 @@ type HOp struct {
 	ForeignURI    bool `json:"foreign_uri,omitempty"`
 	// device decision
 	Accept bool `json:"accept,omitempty"`
+	// token endpoint: a client_id form parameter naming this client is sent next to the (Basic) credentials; 0 = none, n = client n-1
+	ClaimedClient int `json:"claimed_client,omitempty"`
 	// advance
 	Ms int64 `json:"ms,omitempty"`
 	// setclient
@@ -294,6 +296,12 @@ func (w *world) authForm(req *http.Request, form url.Values, auth int) {
 	req.SetBasicAuth(url.QueryEscape(clientID(auth)), url.QueryEscape(clientSecret(auth)))
 }
 
+func (w *world) claim(form url.Values, op *HOp) {
+	if op.ClaimedClient > 0 && op.Auth >= 0 && op.Auth < len(w.clients) && !w.clients[op.Auth].Public {
+		form.Set("client_id", clientID(op.ClaimedClient-1))
+	}
+}
+
 func (w *world) postReq(path string, form url.Values, auth int) *http.Request {
 	req := httptest.NewRequest("POST", path, nil)
 	w.authForm(req, form, auth)
@@ -412,6 +420,7 @@ func (w *world) exec(op *HOp) HObs {
 			form.Set("scope", strings.Join(op.Smuggled, " "))
 			form.Set("audience", "https://smuggled.example/api")
 		}
+		w.claim(form, op)
 		req := w.postReq("/token", form, op.Auth)
 		ar, err := w.prov.NewAccessRequest(ctx, req, &fosite.DefaultSession{})
 		if err != nil {
@@ -570,6 +579,7 @@ func (w *world) exec(op *HOp) HObs {
 		form := url.Values{}
 		form.Set("grant_type", "urn:ietf:params:oauth:grant-type:device_code")
 		form.Set("device_code", w.token(op.Tok, "dc"))
+		w.claim(form, op)
 		req := w.postReq("/token", form, op.Auth)
 		ar, err := w.prov.NewAccessRequest(ctx, req, &fosite.DefaultSession{})
 		if err != nil {
